@@ -268,6 +268,25 @@ def gen_c04(seed, tier):
     for _ in range(nlogins):
         sp = r.pick(sps)
         slack = sp.get("slack") or 0
+        if r.chance(0.12):
+            # the synchronous back channel: an attribute query over SOAP whose answer carries an IssueInstant around
+            # one day (plus the allowance) before or after the SP's clock, with an otherwise fresh assertion
+            f = g.new_flow()
+            g.ev("mkreq", f=f, sp=sp["name"], idp=idp["name"], kind="attribute_query", rb="soap", sign=r.chance(0.5))
+            g.tick(1)
+            g.ev("req", f=f)
+            g.tick(1)
+            if clean:
+                off = r.pick([0, -5, 5, -3600])
+            else:
+                off = r.pick([-1, 1]) * (86400 + slack) + r.pick([-5, -2, -1, 0, 1, 2, 5, 3600, -3600, 2 * 86400, -2 * 86400])
+            pa = {"identity": g.identity(hostile=0.1), "sign_response": r.chance(0.5), "sign_assertion": r.chance(0.5),
+                  "dialect": {"issue_instant": off, "style": r.pick(["Z", "Z", "frac", "nozone"])}}
+            g.ev("aq_answer", f=f, p=pa, sub=g.sub())
+            g.tick(1)
+            g.ev("resp", f=f, r=0, sub=g.sub())
+            g.tick(2)
+            continue
         p = g.sign_params(sp)
         p["identity"] = g.identity(hostile=0.1)
         kind = "none" if clean and r.chance(0.6) else r.pick(BOUND_KINDS)
@@ -665,6 +684,14 @@ def gen_c05(seed, tier):
                     d["recipient"] = r.pick([fed.sp_endpoints(r.pick(others))["acs_post"], "https://evil.example/acs"])
                     d["second_sc"] = {"recipient": r.pick([fed.sp_endpoints(sp)["acs_post"], fed.sp_entity(sp)])}
                     conv = True
+        if d and p.get("encrypt") and r.chance(0.5):
+            # ... and a perfectly good second assertion in the clear travels with the encrypted one (in the Response,
+            # or inside the EncryptedAssertion element behind the EncryptedData): each assertion is judged on its own
+            d["plain_next_to_encrypted"] = {"signed": bool(p.get("sign_assertion"))}
+            if r.chance(0.4):
+                d["plain_next_to_encrypted"]["where"] = "wrapper"
+            if not p.get("sigalg"):
+                p["sigalg"], p["digalg"] = r.pick(SIGALGS), r.pick(DIGALGS)
         if d:
             p["dialect"] = d
         if r.chance(0.2):
